@@ -15,8 +15,8 @@
 (*   - events with no model counterpart (configuration and lock reads,     *)
 (*     directory walking, source reads, unlink of the temp file) are       *)
 (*     skipped;                                                            *)
-(*   - the file order chosen by Discover is bound to the order of first    *)
-(*     opens recorded in the trace;                                        *)
+(*   - the file order of the walk (DiscoverEntry) is bound to the          *)
+(*     directory entries recorded in the trace;                            *)
 (*   - at `end` the model's exit class, tree and lock must equal the       *)
 (*     projected post-state of the real run.                               *)
 (* A run that can be consumed this way prints ACCEPT|<index of its end     *)
@@ -79,7 +79,7 @@ EStart == Has /\ Ev.ev = "start" /\ good /\ Adv /\ Keep /\ StartRun(Ev.mode, Ev.
 -----------------------------------------------------------------------------
 IsOp(c, o) == Has /\ Ev.ev = "op" /\ Ev.cls = c /\ Ev.op = o
 IsNoise == Has /\ Ev.ev = "op" /\
-             \/ (Ev.cls \in {"cfg", "other"} /\ ~Ev.injected)
+             \/ (Ev.cls \in {"cfg", "other"} /\ ~Ev.injected /\ ~(Ev.raw = "readdir" /\ Ev.ent > 0))
              \/ (Ev.cls = "lock" /\ Ev.op \in {"stat", "open", "read", "fsync"} /\ Ev.ok)
              \/ (Ev.cls = "src" /\ Ev.op = "read")
              \/ (Ev.cls = "tmp" /\ Ev.op \in {"unlink", "fsync", "write_orphan"})
@@ -91,18 +91,28 @@ ELogLine == /\ good /\ Has /\ Ev.ev = "log" /\ out # <<>> /\ Ev.code \in Head(ou
 Silent(A, q) == good /\ A /\ UNCHANGED <<l, good, pend, age>> /\ Say(q)
 With(A, cond, q) == good /\ cond /\ A /\ Adv /\ Keep /\ Say(q)
 
-(* the order of first opens recorded for the current run (a prefix when the run ended early) *)
-RECURSIVE StartOf(_)
-StartOf(i) == IF Rec[i].ev = "start" THEN i ELSE StartOf(i - 1)
-ObservedOrder == Rec[StartOf(l - 1)].order
 IsPrefixOf(a, b) == Len(a) <= Len(b) /\ \A i \in 1..Len(a) : a[i] = b[i]
 
-DiscoverSays == IF p.cc = "nosourcedir" /\ ~p.stop THEN <<{1}, FailCode>>        \* "Failed to read metadata of ..."
-                ELSE IF p.cc = "sourcedirfile" /\ ~p.stop THEN <<{2}, FailCode>> \* "... is not a directory"
-                ELSE IF p.stop \/ present = {} THEN <<FailCode>>
-                ELSE IF p.mode = "check" THEN <<{15}>>
-                ELSE IF p.cached # NoRef THEN <<{16}, {17}, {20}>> ELSE <<{16}, {18}>>
-TDiscover == Silent(Discover, DiscoverSays) /\ (p'.pc # "idle" => IsPrefixOf(ObservedOrder, p'.order))
+(* Source discovery: every directory entry the walk is handed is an event (raw = "readdir", ent = the in-scope file, 0 for
+   anything else, -1 when a directory is exhausted).  The order in which the model walks the files is the order of these
+   events - and, through OpenCur, the order in which the passes open them. *)
+IsEntry == Has /\ Ev.ev = "op" /\ Ev.raw = "readdir" /\ Ev.ok /\ ~Ev.injected
+StartSays == IF p.cc = "nosourcedir" THEN <<{1}, FailCode>>               \* "Failed to read metadata of ..."
+             ELSE IF p.cc = "sourcedirfile" THEN <<{2}, FailCode>>        \* "... is not a directory"
+             ELSE <<>>
+PassesSay == IF p.mode = "check" THEN <<{15}>>
+             ELSE IF p.cached # NoRef THEN <<{16}, {17}, {20}>> ELSE <<{16}, {18}>>
+TDiscoverStart == Silent(DiscoverStart, StartSays)
+TDiscoverEntry == /\ good /\ IsEntry /\ Ev.ent > 0 /\ DiscoverEntry
+                  /\ (p.stop \/ p'.order = Append(p.order, Ev.ent))
+                  /\ Adv /\ Keep /\ Say(IF p.stop THEN <<FailCode>> ELSE <<>>)
+(* an entry that is no in-scope file (another extension): the stop flag is polled for it all the same *)
+TDiscoverOtherStop == /\ good /\ p.pc = "walk" /\ p.stop /\ IsEntry /\ Ev.ent = 0
+                      /\ FinishInterrupted(XNonZero) /\ Adv /\ Keep /\ Say(<<FailCode>>) /\ UNCHANGED fsvars
+TDiscoverDone == Silent(DiscoverDone, IF p.order = <<>> THEN <<FailCode>> ELSE PassesSay)
+(* reading the directory fails: the walk of that directory is over, silently *)
+TDiscoverFault == With(DiscoverFault, Has /\ Ev.ev = "op" /\ Ev.raw = "readdir" /\ ~Ev.ok /\ Ev.injected, <<>>)
+TDiscover == TDiscoverStart \/ TDiscoverEntry \/ TDiscoverOtherStop \/ TDiscoverDone \/ TDiscoverFault
 
 (* does a read of the file opened by event i fail (injected) right after it? *)
 ReadFailsAfter(i) ==
@@ -149,7 +159,7 @@ TReadLockFail ==     \* the lock does not exist (silent: no cached ID), or it ca
          ELSE p' = [p EXCEPT !.pc = "exit2"] /\ g' = [g EXCEPT !.faults = @ + 1]
               /\ Say(IF Ev.op = "stat" THEN <<{24}>> ELSE <<{32}, {24}>>)
 TDiscoverFail ==     \* the source directory cannot be examined: "Code discovery error" / "No files found"
-  /\ good /\ p.pc = "discover" /\ Has /\ Ev.ev = "op" /\ Ev.cls = "other" /\ ~Ev.ok /\ Ev.injected
+  /\ good /\ p.pc = "discover" /\ Has /\ Ev.ev = "op" /\ Ev.cls = "other" /\ ~Ev.ok /\ Ev.injected /\ Ev.raw # "readdir"
   /\ FinishInterrupted(XNonZero) /\ Adv /\ Keep /\ Say(IF Ev.raw = "stat" THEN <<{1, 2}, FailCode>> ELSE <<FailCode>>) /\ UNCHANGED fsvars
 
 NoNewFault == g'.faults = g.faults
